@@ -235,18 +235,18 @@ theorem getLoop_noPanic (amount : Number) (name : String) (props : List (String 
     obtain ⟨k, p⟩ := kp
     simp only [Substance.getLoop]
     split
-    · have h := div_noPanic p.input amount
-      generalize Number.div p.input amount = r at h
+    · have h := div_noPanic amount p.input
+      generalize Number.div amount p.input = r at h
       cases r with
-      | ok v => simp only []; split <;> first | exact div_noPanic _ _ | exact noPanic_err _
+      | ok v => simp only []; split <;> first | exact noPanic_ok _ | exact noPanic_err _
       | err c => exact noPanic_err _
       | panic s => exact absurd rfl (h s)
       | unsupported w => exact noPanic_unsupported _
     · split
-      · have h := div_noPanic p.output amount
-        generalize Number.div p.output amount = r at h
+      · have h := div_noPanic amount p.output
+        generalize Number.div amount p.output = r at h
         cases r with
-        | ok v => simp only []; split <;> first | exact div_noPanic _ _ | exact noPanic_err _
+        | ok v => simp only []; split <;> first | exact noPanic_ok _ | exact noPanic_err _
         | err c => exact noPanic_err _
         | panic s => exact absurd rfl (h s)
         | unsupported w => exact noPanic_unsupported _
